@@ -60,6 +60,10 @@ THEOREMS = [
     "Verif.C09.ols_auto_invariant",
     "Verif.C09.ols_auto_scale",
     "Verif.C09.ols_auto_time_scale",
+    "Verif.C09.contiguous_full",
+    "Verif.C09.ensemble_identical_auto",
+    "Verif.C09.gls_normal_equations",
+    "Verif.C09.covEntry_symm",
 ]
 TOL = 1e-9
 AUTO_OPS = ("optpts", "olsauto", "copyauto", "ensolsauto", "optraw")  # max_lag=None: determine_optimal_points and what is built on it
@@ -229,6 +233,9 @@ def expand(case):
         calls.append({"v": "base", "op": "wmean", "means": case["means"], "counts": case["counts"]})
     elif kind == "cov":
         calls.append({"v": "base", "op": "cov", "K": case["K"], "n": case["n"], "a": case["a"], "b": case["b"]})
+    elif kind == "glsupd":
+        # one step of the GLS iteration on the inverse covariance matrix the library itself computes for (K, n, a, b)
+        calls.append({"v": "base", "op": "glsupd", "K": case["K"], "n": case["n"], "a": case["a"], "b": case["b"], "msd": case["msd"]})
     elif kind == "optraw":  # optimal_points(localization_error, num_points) on a list of localisation errors
         for le in case["les"]:
             calls.append({"v": "base", "op": "optraw", "le": le, "n": case["n"]})
@@ -357,6 +364,26 @@ def show_est(e):
 # ------------------------------------------------------------------ impl
 
 
+_W = {}
+
+
+def gls_weight(c):
+    """np.linalg.inv(_msd_diffusion_covariance(K, n, a, b)) - the matrix _diffusion_gls hands to _update_gls_estimate - as
+    the doubles the implementation gets (the model is given exactly these doubles); None when singular"""
+    key = (c["K"], c["n"], c["a"], c["b"])
+    if key not in _W:
+        if len(_W) > 5000:
+            _W.clear()
+        me = _lk()[1]
+        try:
+            with np.errstate(all="ignore"):
+                w = np.linalg.inv(me._msd_diffusion_covariance(c["K"], c["n"], c["a"], c["b"]))
+            _W[key] = w if np.all(np.isfinite(w)) else None
+        except np.linalg.LinAlgError:
+            _W[key] = None
+    return _W[key]
+
+
 def run_call(c):
     _, me, KymoTrack, KymoTrackGroup = _lk()
     op = c["op"]
@@ -365,6 +392,11 @@ def run_call(c):
     if op == "wmean":
         w = me.weighted_mean_and_sd(np.array(c["means"], dtype=float), np.array(c["counts"], dtype=np.int64))
         return "ok " + " ".join(rat(x) for x in w)
+    if op == "glsupd" and gls_weight(c) is None:
+        return "singular"
+    if op == "glsupd":
+        ch, slope, icpt, var = me._update_gls_estimate(gls_weight(c), np.array(c["msd"], dtype=float), c["a"], c["b"])
+        return f"ok {rat(ch)} {rat(slope)} {rat(icpt)} {rat(var)}"
     if op == "optraw":
         le = {"inf": np.inf, "nan": np.nan, "zero": 0}.get(c["le"], c["le"])  # "zero": the Python int the code passes on
         ns, ni = me.optimal_points(le if isinstance(le, int) else np.float64(le), c["n"])
@@ -462,6 +494,11 @@ def op_line(c):
         return f"c09.wmean {rlist(c['means'])} {rlist(c['counts'])}"
     if op == "cov":
         return f"c09.cov {c['K']} {rat(c['n'])} {rat(c['a'])} {rat(c['b'])}"
+    if op == "glsupd":
+        w = gls_weight(c)
+        if w is None:
+            return "c09.glsupd [] [] 0 0"
+        return f"c09.glsupd [{';'.join(','.join(rat(x) for x in row) for row in w)}] {rlist(c['msd'])} {rat(c['a'])} {rat(c['b'])}"
     if op == "optraw":
         return f"c09.optraw {c['le'] if c['le'] in ('inf', 'nan') else '0' if c['le'] == 'zero' else rat(c['le'])} {int(c['n'])}"
     if op in ("msd", "kmsd", "cve", "cvek", "ols", "optpts", "olsauto", "copyauto"):
@@ -551,6 +588,8 @@ def agree(case, i, ia, ma):
     """DESIGN 2.2: ints exactly; rationals within 1e-9 * scale, the scale supplied by the model"""
     ia = strip_extras(ia)
     op = calls_of(case)[i]["op"]
+    if op == "glsupd" and ma == "singular":
+        return True  # kappa*mu - lam^2 = 0 exactly (or no inverse): the step divides by zero, nothing is determined
     if op in AUTO_OPS and ma == "tie":
         # the model reports that a sign / floor the lag search branches on is decided by the last bits of a double
         # (signTies / floorTie in the model): nothing to compare; counted in extra_coverage
@@ -563,6 +602,12 @@ def agree(case, i, ia, ma):
         return a[0] == m[0] and a[1] == m[1] and near_list(a[2], m[2])
     if op in ("optpts", "optraw"):
         return a == m
+    if op == "glsupd":  # change, slope, intercept, var_slope | scales of slope, intercept, var_slope
+        if len(a) != 4 or len(m) != 7:
+            return False
+        c = calls_of(case)[i]
+        sc = [m[4] + m[5] + abs(Fr(c["a"])) + abs(Fr(c["b"])), m[4], m[5], m[6]]
+        return all(near(a[j], m[j], sc[j], 1e-8) for j in range(4))
     if op in ("olsauto", "copyauto", "ensolsauto"):
         if len(a) != 4 or len(m) != 7 or a[3] != m[3]:  # the number of lags exactly
             return False
@@ -884,6 +929,42 @@ def copies_auto(single, copies, frames, pos, S, what, pts=None):
     return same_est("ok " + " ".join([xc[0], "0/1", xc[2]]), "ok " + " ".join([xs[0], "0/1", xs[2]]), (1, 1, 1), S, what)
 
 
+def oracle_glsupd(case, a):
+    """the line a GLS step returns solves the weighted normal equations for the weight matrix it was given (plain Python,
+    exact fractions of the doubles): sum_rc W[r,c] res_c = 0 and sum_rc (r+1) W[r,c] res_c = 0 with res_c = msd_c - a - b (c+1);
+    the matrix the library computes must be symmetric (hypothesis of gls_normal_equations)"""
+    w = gls_weight(calls_of(case)[0])
+    if w is None:
+        return None
+    if not a.startswith("ok "):
+        return f"_update_gls_estimate raised {a}"
+    got = [ptok(t) for t in a.split()[1:]]
+    if any(isinstance(g, float) for g in got):
+        return None  # a vanishing determinant kappa*mu - lam^2 in doubles: nothing determined
+    W = [[Fr(float(x)) for x in row] for row in w]
+    y = frs(case["msd"])
+    K = len(y)
+    lam = sum((r + 1) * W[r][c] for r in range(K) for c in range(K))
+    lam_t = sum((c + 1) * W[r][c] for r in range(K) for c in range(K))
+    wabs = sum((r + 1) * abs(W[r][c]) for r in range(K) for c in range(K))
+    if abs(lam - lam_t) > Fr(1, 10**6) * wabs:
+        return "the inverse covariance matrix handed to the GLS step is not symmetric"
+    slope, icpt = got[1], got[2]
+    res = [y[c] - icpt - slope * (c + 1) for c in range(K)]
+    mag = [abs(y[c]) + abs(icpt) + abs(slope) * (c + 1) for c in range(K)]
+    for name, wt in (("", lambda r: 1), ("lag-weighted ", lambda r: r + 1)):
+        tot = sum(wt(r) * W[r][c] * res[c] for r in range(K) for c in range(K))
+        sc = sum(wt(r) * abs(W[r][c]) * mag[c] for r in range(K) for c in range(K))
+        kap = sum(abs(W[r][c]) for r in range(K) for c in range(K))
+        den = abs(sum(W[r][c] for r in range(K) for c in range(K)) * sum((r + 1) * (c + 1) * W[r][c] for r in range(K) for c in range(K)) - lam * lam)
+        cancel = (kap * sum((r + 1) * (c + 1) * abs(W[r][c]) for r in range(K) for c in range(K)) + wabs * wabs) / den if den else None
+        if cancel is None or cancel > 10**6:
+            return None  # the 2x2 system of the step is itself ill conditioned: rounding decides
+        if abs(tot) > Fr(1, 10**7) * sc * cancel:
+            return f"GLS step: the {name}weighted residuals of the returned line do not sum to zero (not the generalised least-squares line)"
+    return None
+
+
 def est4(a):
     """'ok value var lv num_lags' -> 'value,var,lv,num_lags' (the form auto_lags_line / copies_auto take), else the exception name"""
     x = a.split()
@@ -936,6 +1017,8 @@ def oracle(case, ia):
                 if isinstance(m[i][j], float) or not near(m[i][j], m[j][i], m[i][j], 1e-12):
                     return f"covariance matrix is not symmetric/finite at ({i},{j})"
         return None
+    if kind == "glsupd":
+        return oracle_glsupd(case, ia[0])
     if kind == "optraw":
         for c, a in zip(calls, ia):
             if case["n"] <= 4:
@@ -1333,6 +1416,8 @@ def nontrivial(case, ia):
         return len(case["frames"]) >= 2 and any(a.startswith("ok ") for a in ia)
     if k == "optraw":
         return any(a.startswith("ok ") for a in ia)
+    if k == "glsupd":
+        return ia[0].startswith("ok ") and len(case["msd"]) >= 2
     return all(a.startswith("ok ") for a in ia)
 
 
@@ -1555,6 +1640,16 @@ def with_auto(case):
 # localisation errors optimal_points is evaluated at (every track length 0..520 on thorough): the constants the code passes on
 # (0 as a Python int, inf, nan) and a grid from diffusion dominated to noise dominated
 OPTRAW_LES = ["zero", 0.0, "inf", "nan", 1e-9, 1e-3, 0.01, 0.1, 0.25, 0.5, 1.0, 2.0, 3.3, 5.0, 10.0, 30.0, 100.0, 1e3, 1e4, 1e6, 1e9, 1e15]
+
+
+def glsupd_scope(quick):
+    """every (K, n) with 2 <= K < n <= 7 (quick: <= 6), intercept / slope on a small grid, two MSD curves each"""
+    for n in range(3, 7 if quick else 8):
+        for K in range(2, n):
+            for a, b in ((0.0, 1.0), (0.5, 1.0), (-0.25, 1.0), (2.0, 0.25), (1.0, 0.0)):
+                for shape in (0, 1):
+                    msd = [a + b * (l + 1) if shape == 0 else float((l * l + 1) % 5) / 4 for l in range(K)]
+                    yield {"stream": "small-scope", "kind": "glsupd", "K": K, "n": n, "a": a, "b": b, "msd": [max(0.0, m) for m in msd]}
 
 
 def optraw_scope(quick):
@@ -1906,6 +2001,16 @@ def _cases(tier, rng):
         c["subseed"] = i
         yield pick_storage(sub, with_auto(c))
     yield from optraw_scope(quick)
+    yield from glsupd_scope(quick)
+    r = rng.fork("c09-glsupd")
+    for i in range(60 if quick else 1200):
+        sub = r.fork(i)
+        K = sub.choice([2, 2, 3, 4, 5, 6, sub.randint(2, 10)])
+        n = K + sub.choice([1, 1, 1, 2, 5, sub.randint(1, 40)])  # K = n - 1: all lags of a track without missing frames
+        b = sub.choice([sub.uniform(0.01, 3), sub.randint(1, 128) / 64, 2.0**-20, 1e3])
+        a = sub.choice([0.0, sub.uniform(-0.5, 2) * b, sub.randint(-32, 128) / 64, 30 * b])
+        msd = [max(0.0, a + b * (l + 1) + sub.choice([0.0, sub.uniform(-0.3, 0.3) * b * (l + 1) ** 0.5])) for l in range(K)]
+        yield {"stream": "random", "kind": "glsupd", "subseed": i, "K": K, "n": n, "a": a, "b": b, "msd": msd}
 
 
 def lag_holes(case):
@@ -1934,6 +2039,40 @@ def extra_coverage(results):
     storage, all_lags = {}, {}  # storage type of the frame indices (as actually used by a call); KymoTrack.msd asked for >= all lags
     auto = {"compared": 0, "not_asserted_missing_frames": 0, "not_asserted_sign_tie": 0, "too_few_points_or_error_on_both_sides": 0,
             "compared_by_track_length": {}, "compared_by_num_lags_vs_start_guess": {}, "noise_ratio_of_generated_tracks": {}}
+    # the automatic number of lags as the MODEL runs it (determine_optimal_points / _ensemble, optimal_points, GLS step)
+    lagsearch = {"by_op": {}, "num_lags_chosen": {}, "num_lags_vs_start_guess": {}, "slope_vs_intercept_lags": {},
+                 "optimal_points_localization_error": {}, "gls_step": {}}
+    for r in results:
+        c = r["case"]
+        if c["kind"] in ("track", "ens", "optraw", "glsupd"):
+            for call, a, m in zip(expand(c), r["impl"], r["model"]):
+                op = call["op"]
+                if op == "glsupd":
+                    key = "singular" if m == "singular" else f"K={call['K']}" if call["K"] <= 6 else "K>=7"
+                    lagsearch["gls_step"][key] = lagsearch["gls_step"].get(key, 0) + 1
+                if op not in AUTO_OPS:
+                    continue
+                d_ = lagsearch["by_op"].setdefault(op, {})
+                key = "tie (not compared)" if m == "tie" else "compared: numbers" if m.startswith("ok ") else "compared: " + m[:30]
+                d_[key] = d_.get(key, 0) + 1
+                if op == "optraw":
+                    le = call["le"]
+                    key = le if isinstance(le, str) else "0" if le == 0 else "<0.1" if le < 0.1 else "0.1-10" if le <= 10 else ">10"
+                    lagsearch["optimal_points_localization_error"][key] = lagsearch["optimal_points_localization_error"].get(key, 0) + 1
+                if not m.startswith("ok "):
+                    continue
+                if op == "optpts":
+                    ns, ni = (int(x) for x in m.split()[1:3])
+                    n = len(call["frames"])
+                    g0 = max(2, n // 10)
+                    key = "= start guess" if ns == g0 else "< start guess" if ns < g0 else "> start guess"
+                    lagsearch["num_lags_vs_start_guess"][key] = lagsearch["num_lags_vs_start_guess"].get(key, 0) + 1
+                    key = "slope = intercept" if ns == ni else "slope < intercept" if ns < ni else "slope > intercept (cache refreshed for the intercept only when larger)"
+                    lagsearch["slope_vs_intercept_lags"][key] = lagsearch["slope_vs_intercept_lags"].get(key, 0) + 1
+                if op in ("olsauto", "copyauto", "ensolsauto"):
+                    k = int(m.split()[4])
+                    key = str(k) if k <= 4 else "5-9" if k < 10 else "10-29" if k < 30 else ">=30"
+                    lagsearch["num_lags_chosen"][key] = lagsearch["num_lags_chosen"].get(key, 0) + 1
     for r in results:
         c = r["case"]
         if c["kind"] in ("track", "ens"):
@@ -2029,6 +2168,7 @@ def extra_coverage(results):
             "frame_index_storage_types_of_kymotrack_calls": storage,
             "kymotrack_msd_calls_by_requested_lags_and_storage_type": all_lags,
             "identical_copies_with_automatic_number_of_lags": auto,
+            "lag_search_as_run_by_the_model": lagsearch,
             "tolerance": "1e-9 * scale (scale computed by the model from absolute values of every term)",
             "exhaustive": False,
             "exhaustive_note": "the small-scope stream enumerates its finite space completely on thorough (strided on quick); random streams do not"}
